@@ -50,7 +50,9 @@ MA3 = (f"""(define (domain ma3)
   :precondition (and (idle ?a))
   :effect (and (not (idle ?a)) (forall (?i - item) (when (own ?a ?i) (clean ?i)))))
 (:action grab :parameters (?a - agent ?i - item)
-  :precondition (and (not (own ?a ?i))) :effect (and (own ?a ?i) (when (clean ?i) (idle ?a)))))
+  :precondition (and (not (own ?a ?i))) :effect (and (own ?a ?i) (when (clean ?i) (idle ?a))))
+(:action rest :parameters (?a - agent)
+  :precondition (and (forall (?i - item) (and (clean ?i)))) :effect (and (idle ?a))))
 """, """(define (problem ma3p) (:domain ma3)
 (:objects {agents} - agent i1 i2 - item)
 (:init (idle a1) (own a1 i1) (own a2 i2))
